@@ -263,12 +263,16 @@ func (r *Rtmp2RtspRemuxer) remux(msg base.RtmpMsg) {
 			var payload []byte
 			if msg.VideoCodecId() == base.RtmpCodecIdHevc && msg.IsEnchanedHevcNalu() {
 				index := msg.GetEnchanedHevcNaluIndex()
+				if len(msg.Payload) < index {
+					Log.Warnf("rtmp msg too short, ignore. header=%+v, payload=%s", msg.Header, hex.Dump(msg.Payload))
+					return
+				}
 				payload = msg.Payload[index:]
 			} else {
 				payload = msg.Payload[5:]
 			}
 
-			if RtspRemuxerAddSpsPps2KeyFrameFlag {
+			if RtspRemuxerAddSpsPps2KeyFrameFlag && len(msg.Payload) >= 9 {
 				if msg.IsAvcKeyNalu() && r.sps != nil && r.pps != nil {
 					payload = h2645.JoinNaluAvcc(r.sps, r.pps, msg.Payload[9:])
 				}
